@@ -84,7 +84,16 @@ def evidence_coverage(results, tier):
         "selfcheck_failed": [{"program": r["job"], "why": (r.get("reason") or "")[:120]} for r in results if r.get("status") == "selfcheck_failed"][:100],
         "self_validation": {"programs_checked": sum(1 for r in results if (r.get("selfcheck") or {}).get("checked")), "failed": sum(1 for r in results if r.get("status") == "selfcheck_failed")},
         "twins": "every solver batch contains a perturbed twin that must be sat",
+        "harness_errors": [{"program": r["job"], "why": (r.get("reason") or "")[:160]} for r in results if r.get("status") in ("harness_error", "crashed")][:80],
+        "timeouts": [r["job"] for r in results if r.get("status") == "timeout"][:80],
     }
+    try:  # debugging aid (not evidence): per-job wall times of the last run
+        import json, os
+
+        os.makedirs("/verif/.work", exist_ok=True)
+        json.dump([{"job": r.get("job"), "status": r.get("status"), "wall_s": r.get("wall_s"), "reason": (r.get("reason") or "")[:200]} for r in results], open(f"/verif/.work/last_results_{len(results)}.json", "w"))
+    except Exception:
+        pass
     return cov
 
 
